@@ -84,7 +84,8 @@ class JSONEncoder(json.JSONEncoder):
 
 def _load_docstring(obj_dict: dict) -> Docstring | None:
     if "docstring" in obj_dict:
-        return Docstring(**obj_dict["docstring"])
+        # Full dumps also contain the parsed sections, which are re-computed on demand.
+        return Docstring(**{key: value for key, value in obj_dict["docstring"].items() if key != "parsed"})
     return None
 
 
@@ -277,7 +278,11 @@ def json_decoder(obj_dict: dict[str, Any]) -> dict[str, Any] | Object | Alias | 
         try:
             kind = Kind(obj_dict["kind"])
         except ValueError:
-            return _load_parameter(obj_dict)
+            try:
+                return _load_parameter(obj_dict)
+            except (KeyError, ValueError):
+                # Neither an object nor a parameter (for example a docstring section in a full dump).
+                return obj_dict
         return _loader_map[kind](obj_dict)
 
     # Return dict as is.
